@@ -645,8 +645,19 @@ impl Sut {
         if a.count() != a.iter().count() || a.count() != a.as_slice().len() || a.is_empty() != (a.count() == 0) {
             bad!(self, ["C11"], "count()/iter().count()/as_slice().len()/is_empty() disagree".into());
         }
-        if a.get_node_id_at(NonZeroUsize::new(a.count() + 1).unwrap()).is_some() {
-            bad!(self, ["C11"], "get_node_id_at(out of range) is Some".into());
+        // out-of-range positions: count()+1 (the first one past the end) and one further out; a panic here is a C11 violation
+        // of its own ("get_node_id_at returns None for removed and out-of-range positions")
+        for beyond in [1usize, 2, 1000] {
+            let p = a.count() + beyond;
+            match catch_unwind(AssertUnwindSafe(|| a.get_node_id_at(NonZeroUsize::new(p).unwrap()))) {
+                Ok(None) => {}
+                Ok(Some(_)) => {
+                    bad!(self, ["C11"], format!("get_node_id_at({}) is Some although count() is {}", p, a.count()));
+                }
+                Err(_) => {
+                    bad!(self, ["C11"], format!("get_node_id_at({}) panicked (count() is {}; expected None)", p, a.count()));
+                }
+            }
         }
         self.quick_checks()?;
         for u in 0..n {
